@@ -367,6 +367,8 @@ def find_mangled(cwd, package, target_dir, names, fn_pretty, exact, logfile):
         d = json.load(open(newest))
     except Exception:
         return None
+    if fn_pretty is None:
+        return d
     for k, v in d.items():
         if v == fn_pretty:
             return k
